@@ -234,6 +234,19 @@ def jobs(tier):
     for k, c in enumerate(c02.extra_quick()):
         out.append(('hier', 'case_hier', dict(
             units=c, n_ids=2, posterior=(k % 2 == 0)), {}))
+    # outputs without measurements, 3 outputs with unequal parameter counts
+    for k, (_, _, cfg, _) in enumerate(c01.empty_layouts()):
+        out.append(('ll', 'case_ll', dict(cfg, posterior=(k % 3 == 0)), {}))
+        if k % 4 == 0:
+            out.append(('ll', 'case_ll', dict(cfg, fix=[2], posterior=False),
+                        {}))
+    for e in (('Gaussian', 'ConstantAndMultiplicative', 'LogNormal'),
+              ('ConstantAndMultiplicative', 'Gaussian', 'Multiplicative'),
+              ('LogNormal', 'ConstantAndMultiplicative',
+               'ConstantAndMultiplicative')):
+        out.append(('ll', 'case_ll', dict(
+            ems=list(e), times=[[0.0, 1.0], [1.0], [0.0, 2.5]],
+            posterior=False), {}))
     PK = {'facade': {'myokit': True}, 'diffcheck': False}
     for direct in (True, False):
         for ems in (['Gaussian'], ['LogNormal'], ['ConstantAndMultiplicative'],
